@@ -4,6 +4,7 @@ import (
 	"fmt"
 	"go/ast"
 	"go/token"
+	"strings"
 )
 
 // C15 — distributed aggregation.
@@ -20,6 +21,31 @@ func init() {
 		{Pkg: "cmd/global-query/pkg/distributed", Kind: "const", Name: "maxLimitStreaming"},
 	}})
 	const dist = "cmd/global-query/pkg/distributed"
+	// the querier's fan-out (plugins/querier/apiclient/querier.go): the runner-count computation of
+	// APIClientQuerier.Query is regenerated (bounded fragment, frag.go) as
+	// Gen.Querier.numRunners (nHosts maxConcurrent : Int) : Int; everything else of Query,
+	// prepareQueries, createQueryWorkload and ErrorRunner.Run is pinned statement by statement
+	const qpkg = "plugins/querier/apiclient"
+	addTargets(Target{File: "Querier", Items: []Item{
+		{Pkg: qpkg, Kind: "frag", Name: "APIClientQuerier.Query", As: "numRunners",
+			From: c15RunnersFrom, Until: c15RunnersUntil, Yield: []string{"numRunners"},
+			Opaque: [][2]string{{"len(hosts)", "nHosts"}, {"a.MaxConcurrent", "maxConcurrent"}}},
+	}})
+	factExtractors["c15_querier_query_stmts"] = func(l *Loader) (any, error) {
+		return c15StmtsOutside(l, qpkg, "APIClientQuerier.Query", c15RunnersFrom, c15RunnersUntil)
+	}
+	factExtractors["c15_querier_prepare_stmts"] = func(l *Loader) (any, error) {
+		return c15StmtsOutside(l, qpkg, "APIClientQuerier.prepareQueries", "", "")
+	}
+	factExtractors["c15_querier_workload_stmts"] = func(l *Loader) (any, error) {
+		return c15StmtsOutside(l, qpkg, "APIClientQuerier.createQueryWorkload", "", "")
+	}
+	factExtractors["c15_error_runner_stmts"] = func(l *Loader) (any, error) {
+		return c15StmtsOutside(l, "pkg/distributed", "ErrorRunner.Run", "", "")
+	}
+	factExtractors["c15_querier_new_assigns"] = func(l *Loader) (any, error) { return c15Assigns(l, qpkg, "New"), nil }
+	factExtractors["c15_querier_default_mc"] = func(l *Loader) (any, error) { return c15VarInit(l, qpkg, "defaultMaxConcurrent") }
+	factExtractors["c15_runner_run_calls"] = func(l *Loader) (any, error) { return CallSeq(l, dist, "QueryRunner.run"), nil }
 	factExtractors["c15_stats_add_lhs"] = func(l *Loader) (any, error) { a, _, err := c15AddProgram(l, "pkg/types/workload", "Stats.Add"); return a, err }
 	factExtractors["c15_stats_add_rhs"] = func(l *Loader) (any, error) { _, b, err := c15AddProgram(l, "pkg/types/workload", "Stats.Add"); return b, err }
 	factExtractors["c15_counters_add_lhs"] = func(l *Loader) (any, error) { a, _, err := c15AddProgram(l, "pkg/types", "Counters.Add"); return a, err }
@@ -39,6 +65,62 @@ func init() {
 	factExtractors["c15_bintime_assigns"] = func(l *Loader) (any, error) { return c15Assigns(l, "pkg/results", "TimeBinner.BinTime"), nil }
 	factExtractors["c15_merge_row_assigns"] = func(l *Loader) (any, error) { return c15Assigns(l, "pkg/results", "RowsMap.MergeRow"), nil }
 	factExtractors["c15_seterr_assigns"] = func(l *Loader) (any, error) { return c15Assigns(l, "pkg/results", "HostsStatuses.SetErr"), nil }
+}
+
+const (
+	c15RunnersFrom  = "numRunners :="
+	c15RunnersUntil = "logger := logging.FromContext(ctx)"
+)
+
+// c15StmtsOutside lists the source text (white space normalised, comments dropped) of every
+// top-level statement of fn, in order; the stretch [from, until) — which is translated instead — is
+// replaced by the marker "<fragment>". Both bounds must be found when given.
+func c15StmtsOutside(l *Loader, pkg, fn, from, until string) ([]string, error) {
+	_, fd := mustFunc(l, pkg, fn)
+	out := []string{}
+	state := 0 // 0 before, 1 inside, 2 after the stretch
+	for _, s := range fd.Body.List {
+		t := srcText(l, s)
+		if from != "" && state == 0 && strings.HasPrefix(t, from) {
+			state = 1
+			out = append(out, "<fragment>")
+		}
+		if state == 1 && strings.HasPrefix(t, until) {
+			state = 2
+		}
+		if state != 1 {
+			out = append(out, t)
+		}
+	}
+	if from != "" && state != 2 {
+		return nil, fmt.Errorf("%s: stretch from %q to %q not found", fn, from, until)
+	}
+	return out, nil
+}
+
+// c15VarInit returns the source text of the initialiser of a package-level variable
+func c15VarInit(l *Loader, pkg, name string) (string, error) {
+	p, err := l.Load(pkg)
+	if err != nil {
+		return "", err
+	}
+	for _, f := range p.Files {
+		for _, d := range f.Decls {
+			gd, ok := d.(*ast.GenDecl)
+			if !ok || gd.Tok != token.VAR {
+				continue
+			}
+			for _, sp := range gd.Specs {
+				vs := sp.(*ast.ValueSpec)
+				for i, n := range vs.Names {
+					if n.Name == name && i < len(vs.Values) {
+						return srcText(l, vs.Values[i]), nil
+					}
+				}
+			}
+		}
+	}
+	return "", fmt.Errorf("variable %s not found in %s", name, pkg)
 }
 
 // c15AddProgram reads a method whose body is a sequence of `recv.X += param.Y` statements
